@@ -419,6 +419,29 @@ def analyse(job):
                 elif is_cex:
                     res['inconclusive'].append('solver counterexample %r does not reproduce (encoding error); grammar %r'
                                                % (ws, text))
+        if job.get('concrete_vocab_cases'):
+            # every vocabulary item typed completely / partially, as itself: run only in the real bash
+            # (no symbolic word can contain the glob/backslash characters these literals are made of)
+            cc = []
+            for v in sorted(vocab):
+                for wbx in job['configs']:
+                    cc.append((wbx, [v, '']))
+                    for i in range(0, len(v) + 1):
+                        cc.append((wbx, [v[:i]]))
+                    cc.append((wbx, [v + 'z', '']))
+                    cc.append((wbx, [(v[:-1] + 'z') if v else 'z', '']))
+            real = bashreal.run_real(script, probes, [(wbx, ['cmd'] + ws, len(ws)) for (wbx, ws) in cc])
+            for (wbx, ws), (rrc, rreply, rlog) in zip(cc, real):
+                matched, expected, cctx, shown = concrete_reference(resolver, R0, table, ws[:-1], ws[-1], wbx)
+                res['validated'] += 1
+                if (set(rreply) - {shown}) != (set(expected) - {shown}):
+                    combo = attribute(resolver, R0, table, ws, wbx, set(rreply), shown)
+                    key = '+'.join(combo) if combo else 'special-characters'
+                    what = ('bash offers %r for words %r + typed %r (COMP_WORDBREAKS %r); the grammar prescribes %r'
+                            % (sorted(set(rreply)), ws[:-1], ws[-1], wbx, sorted(set(expected))))
+                    res['violations'].append((key, what, {'grammar': text, 'words': ws, 'wordbreaks': wbx,
+                                                          'real': sorted(set(rreply)), 'expected': sorted(set(expected)),
+                                                          'script': script, 'probes': probes}))
     except Unsupported as e:
         res['status'] = 'unsupported'
         res['inconclusive'].append('unsupported bash construct: %s; grammar %r' % (e, text))
